@@ -557,6 +557,24 @@ func runC14(tier string, seed uint64) {
 					}
 					continue
 				}
+				if len(ups) > 1 && rng.Intn(8) == 0 {
+					// the id of this upload used through the key of another one (part upload, part listing, abort):
+					// there is no such upload under that key, and the listings of both stay what they were
+					o := ups[rng.Intn(len(ups))]
+					if o.key != u.key {
+						switch rng.Intn(3) {
+						case 0:
+							s.UploadPart(b, o.key, u.id, pn, c06Body(rng, j))
+						case 1:
+							s.ListParts(b, o.key, u.id, -1, -1)
+						default:
+							s.Abort(b, o.key, u.id)
+						}
+						s.ListParts(b, u.key, u.id, -1, -1)
+						s.ListUploads(b, "", "", "", "", -1)
+						continue
+					}
+				}
 				if _, held := u.etags[pn]; held && rng.Intn(3) == 0 {
 					// a re-upload of a part that the server refuses (the digest of other bytes; more bytes than
 					// declared): the part held before is still the one the listings show
